@@ -19,6 +19,17 @@ theorem two_tdiv_le (v : Int) (h : 0 < v.tdiv 2) : 2 * v.tdiv 2 ≤ v := by
 theorem expo_le_cap (b c : Int) (n : Nat) : expo b c n ≤ c := by
   unfold expo; omega
 
+/-- stated for EVERY attempt count `n` (unbounded integers: there is no overflow in the model) -/
+theorem expo_nonneg (b c : Int) (n : Nat) (hb : 0 ≤ b) (hc : 0 ≤ c) : 0 ≤ expo b c n := by
+  have : (0:Int) ≤ b * 2 ^ n := Int.mul_nonneg hb (Int.pow_nonneg (by omega))
+  unfold expo; omega
+
+/-- the exponential step never shrinks as the attempts grow, and stays at the cap once it got there -/
+theorem expo_mono (b c : Int) (n : Nat) (hb : 0 ≤ b) : expo b c n ≤ expo b c (n + 1) := by
+  have h0 : (0:Int) ≤ b * 2 ^ n := Int.mul_nonneg hb (Int.pow_nonneg (by omega))
+  have h1 : b * 2 ^ (n + 1) = b * 2 ^ n * 2 := by rw [Int.pow_succ, ← Int.mul_assoc]
+  unfold expo; rw [h1]; omega
+
 theorem realSleep_le (m s : Int) : realSleep m s ≤ s := by
   unfold realSleep; split <;> omega
 
@@ -41,6 +52,22 @@ theorem sleepAllowed_le (f : Fn) (s : Int) (h : sleepAllowed f s = true) : s ≤
       · simp at h
         have := two_tdiv_le (expo f.base f.cap f.attempts) h.1
         omega
+      · split at h
+        · simp at h; omega
+        · simp at h; omega
+
+/-- no allowed sleep is negative (closures have base ≥ 2; the cap is assumed ≥ 0), for every attempt count -/
+theorem sleepAllowed_nonneg (f : Fn) (s : Int) (h : sleepAllowed f s = true) (hb : 0 ≤ f.base) (hc : 0 ≤ f.cap) :
+    0 ≤ s := by
+  have hv := expo_nonneg f.base f.cap f.attempts hb hc
+  unfold sleepAllowed at h
+  simp only at h
+  split at h
+  · simp at h; omega
+  · split at h
+    · simp at h; omega
+    · split at h
+      · simp at h; omega
       · split at h
         · simp at h; omega
         · simp at h; omega
@@ -208,7 +235,7 @@ theorem excl_le_exclMax {n : String} {v : Int} (h : excl n = some v) : v ≤ exc
 theorem exclMax_nonneg : 0 ≤ exclMax := (foldl_max_ge Gen.isSleepExcluded 0).1
 
 def BInv (M : Int) (b : Backoffer) : Prop :=
-  (∀ p ∈ b.fns, p.2.cap ≤ M) ∧
+  (∀ p ∈ b.fns, p.2.cap ≤ M ∧ 2 ≤ p.2.base) ∧
   (b.tainted = false → 0 < b.maxSleep →
     b.totalSleep - b.excludedSleep < b.maxSleep + M ∧ b.excludedSleep < max exclMax b.maxSleep + M)
 
@@ -227,16 +254,19 @@ theorem BInv_zero {M : Int} (hM : 0 ≤ M) {b : Backoffer} (hf : b.fns = []) (ht
   have := exclMax_nonneg
   omega
 
-theorem effFn_cap {M : Int} {b : Backoffer} {cfg : Config} {f : Fn} (hb : ∀ p ∈ b.fns, p.2.cap ≤ M)
-    (hc : cfg.cap ≤ M) (h : effFn b cfg = some f) : f.cap ≤ M := by
+theorem mkFn_base (base cap jitter : Int) : 2 ≤ (mkFn base cap jitter).base := by
+  simp only [mkFn]; split <;> omega
+
+theorem effFn_cap {M : Int} {b : Backoffer} {cfg : Config} {f : Fn} (hb : ∀ p ∈ b.fns, p.2.cap ≤ M ∧ 2 ≤ p.2.base)
+    (hc : cfg.cap ≤ M) (h : effFn b cfg = some f) : f.cap ≤ M ∧ 2 ≤ f.base := by
   unfold effFn at h
   split at h
   · rename_i g hg; injection h with h; subst h; exact hb _ (fnLookup_mem hg)
   · split at h
     · split at h
-      · injection h with h; subst h; simpa [mkFn] using hc
+      · injection h with h; subst h; exact ⟨by simpa [mkFn] using hc, mkFn_base _ _ _⟩
       · contradiction
-    · injection h with h; subst h; simpa [mkFn] using hc
+    · injection h with h; subst h; exact ⟨by simpa [mkFn] using hc, mkFn_base _ _ _⟩
 
 theorem overBudget_false {b : Backoffer} {n : String} (h : overBudget b n = false) (hpos : 0 < b.maxSleep) :
     b.totalSleep - b.excludedSleep < b.maxSleep ∧
